@@ -104,7 +104,7 @@ CHECKS["C13"] = dict(
     technique="MIR dominance rule for the length test, reaching-definitions must-pass-through of clamp(-1,1) on the pushed value, provenance of clamp bounds, guarded-divisor rule, ADT field visibility and constructor audit",
     text=("Static decision of the structural clauses of C13: wrong-length tuples are rejected before anything is produced, every value pushed to "
           "the result is the direct result of clamp(-1, 1) on the 16.16 value, the default coordinate maps to the constant 0 and divisions happen only "
-          "under a strict comparison with the default, the avar segment map compares only with table data, the font-supplied clamp bounds are ordered by construction, fixed-point division guards a "
+          "under a strict comparison with the default, the avar segment map compares only with table data, 16.16 products and quotients are formed in 64 bits, the font-supplied clamp bounds are ordered by construction, fixed-point division guards a "
           "zero divisor, and tuples cannot be forged. The numeric clauses (exact -1/0/+1, accuracy, monotonicity) are not decided."),
     design_ref="DESIGN.md section 6, C13",
 )
@@ -118,7 +118,7 @@ CHECKS["C16"] = dict(
           "nested composite, the 2x2 transform entries reach the matrix in the specification's positions, outline and bounding box both honour "
           "SCALED_COMPONENT_OFFSET; and of contour walking: the start point and index range of a contour follow the on/off-curve decision table, "
           "the closing-edge look-ahead wraps modulo the contour length, every contour is one move_to..close sub-path, every point is "
-          "transformed exactly once. Coordinate decoding arithmetic and the numeric values of offsets and scales are not decided."),
+          "transformed exactly once, a glyph taken out of a borrowed table is put back on every exit. Coordinate decoding arithmetic and the numeric values of offsets and scales are not decided."),
     design_ref="DESIGN.md section 6 (C16) and 11.2",
 )
 CHECKS["C17"] = dict(
@@ -216,7 +216,8 @@ CHECKS["C15"] = dict(
           "agree in width, field and constants; no unchecked lossy cast remains in writer code; every placeholder is filled on every Ok path; "
           "position-derived offsets are relative; the CFF INDEX offSize is the specification's decision table applied to the largest "
           "offset actually written; a writer does not emit a computing accessor where the reader stored the raw item; the CFF integer "
-          "operand ranges of the writers equal the specification; composite glyph reader and writer agree on the instruction flag. Equality of values, and data-dependent layouts beyond the compared prefix, are not decided."),
+          "operand ranges of the writers equal the specification; composite glyph reader and writer agree on the instruction flag; the readers of head, hhea, maxp, post, OS/2 and the CFF headers "
+          "follow the specification's item order. Equality of values, and data-dependent layouts beyond the compared prefix, are not decided."),
     design_ref="DESIGN.md section 6, C15",
 )
 
